@@ -70,3 +70,22 @@ Example crossbeam_nonvacuous :
   (map snd (clog _ (bb s)), qitems (bq s)) =
   ([CSendOk 1; CSendOk 2; CSendFull 3; CSendFull 4; CYield 0 1; CYield 0 2; CPending 0; CPending 0], []).
 Proof. vm_compute. reflexivity. Qed.
+
+(* ---- the zero-copy ATOMIC Uni channel at the PAYLOAD level (Alloc/ZcPayload.v, on top of the slot conservation of Alloc/ZcConserve.v): for
+   every interleaving of any number of producers, pollers, drivers, length queries and cancellations, the VALUES handed to consumers are,
+   in order, a prefix of the VALUES accepted - every accepted event is delivered at most once, in acceptance order, carrying exactly the
+   payload that was sent, nothing invented ... ---- *)
+From RM Require Import ZcSoloA ZcConserve ZcPayload.
+Theorem C01_zero_copy_atomic_payloads_exactly_once_in_order :
+  forall N, 0 < N -> forall M k wr cevs, let s := ZC.q _ (zc_run N M k wr cevs) in
+  yielded_of (ulog _ s) = firstn (length (yielded_of (ulog _ s))) (accepted_of (ulog _ s)).
+Proof. exact zc_atomic_payload_exactly_once_in_order. Qed.
+Print Assumptions C01_zero_copy_atomic_payloads_exactly_once_in_order.
+
+(* ... and nothing is lost, in EVERY state: what was delivered, followed by the contents of the slots whose ids are still queued, is exactly
+   what was accepted, in order (a slot in the id ring is never overwritten: the allocator cannot hand it out - conservation) *)
+Theorem C01_zero_copy_atomic_payloads_all_accounted_for :
+  forall N, 0 < N -> forall M k wr cevs, let s := ZC.q _ (zc_run N M k wr cevs) in
+  yielded_of (ulog _ s) ++ map (upool _ s) (inring (ub _ s)) = accepted_of (ulog _ s).
+Proof. exact zc_atomic_payload_accounted. Qed.
+Print Assumptions C01_zero_copy_atomic_payloads_all_accounted_for.
